@@ -1,6 +1,15 @@
 import Driver.SimStep
-/-! Driver executable for C02 (see Driver/SimStep.lean). -/
+/-! Driver executable for C02 (see Driver/SimStep.lean).
+
+Request lines that start with the tag `again ` come from a run that was NOT the first execution of its `Circuit`
+object (the harness executed the same object before, with another seed and the same number of shots).  `execute*`
+clears quantum and classical state, so the requirement on such a run is exactly that on a first run: the tag is
+stripped and the line is answered like any other (`step`: the pre-state of the first operation is the fresh state with
+a zero register; `shot`: forced replay from `|0…0⟩` and register 0). -/
 open Q1t Q1t.Proto Q1t.SimStep
 
+def untag (line : String) : String :=
+  if line.startsWith "again " then (line.drop 6).toString else line
+
 def main (args : List String) : IO Unit :=
-  if args = ["spec"] then serve specCheck else serve handle
+  if args = ["spec"] then serve (specCheck ∘ untag) else serve (handle ∘ untag)
